@@ -40,4 +40,10 @@ MCCfgSet == { [df |-> FLT!Absent, ac |-> FLT!Absent],
               [df |-> FLT!List({17}), ac |-> FLT!Absent],
               [df |-> FLT!Absent, ac |-> FLT!List({4221840})],          \* 406b90
               [df |-> FLT!List({}), ac |-> FLT!List({16395, 1710618})] } \* 00400b (nobody), 1a1a1a
+ASSUME InputAdmissible
+
+MCCfgSetQ == { [df |-> FLT!Absent, ac |-> FLT!Absent],
+               [df |-> FLT!Absent, ac |-> FLT!List({4221840})] }           \* 406b90: hides the 40058b frames
+MCCfgSetR == { [df |-> FLT!List({17}), ac |-> FLT!Absent],
+               [df |-> FLT!List({}), ac |-> FLT!List({16395, 1710618})] }
 =============================================================================
